@@ -314,7 +314,7 @@ func (m *cgMethod) block(r *Repo, list []ast.Stmt, cond string) error {
 				if strings.HasPrefix(c, "!") {
 					// composition of other methods: keep as text
 					m.text = append(m.text, "unless "+pred+" "+cgExprString(r, s.Body))
-					continue
+					return m.block(r, list[i+1:], "when:"+pred)
 				}
 				saved := m.over
 				m.over = map[string]ast.Expr{}
